@@ -12,6 +12,11 @@ import PyttbModel.Lemmas.MLMttkrpW
 import PyttbModel.Lemmas.MLSparseMttkrp
 import PyttbModel.Lemmas.MLDenseContract
 import PyttbModel.Lemmas.MLSumFull
+import PyttbModel.Lemmas.MLSparseTtm
+import PyttbModel.Lemmas.MLTtt
+import PyttbModel.Lemmas.MLMttkrps
+import PyttbModel.Lemmas.MLMask
+import PyttbModel.Lemmas.MLTuckerSparseCore
 import PyttbModel.Props.C02KT
 namespace Pyttb
 
@@ -125,6 +130,36 @@ theorem C02_ttm_dense [CommSemiring α] (T : Dense α) (hT : T.WF) (tr : Bool) (
       ∀ i, InBounds Y.shape i → Y.get i = Spec.ttm T.den (pairs.map (·.1)) Mf i :=
   ML.dense_ttmList_spec T hT tr Mf pairs hnd hlt hsz hM
 
+/-- Sparse single-mode `ttm` (sparse matricization with mode `n` as the column mode, product with the
+dense matrix, `sptenmat.from_array`, `to_sptensor`, `to_tensor`), plain and transposed: the dense
+result has the entries `Σ_k M_eff[i_n, k]·X[i with i_n ↦ k]`. -/
+theorem C02_ttm_sparse_mode [CommSemiring α] [DecidableEq α] (S : Sparse α) (hS : S.WF) (M : Mat α)
+    (p q n : Nat) (tr : Bool) (hn : n < S.shape.length) (hsz : (if tr then p else q) = S.shape.getD n 0) :
+    ∃ Y, S.ttmMode M p q n tr = .ok Y ∧ Y.WF ∧ Y.shape = S.shape.set n (if tr then q else p) ∧
+      ∀ i, InBounds Y.shape i → Y.get i = sumRange (S.shape.getD n 0) fun k =>
+        (if tr then M.get k (i.getD n 0) else M.get (i.getD n 0) k) * S.get (i.set n k) :=
+  ML.sparse_ttmMode_spec S hS M p q n tr hn hsz
+
+/-- Sparse `ttm` with a list of matrices over distinct modes (first product on the sparse tensor, the
+others on the dense intermediate results), plain or transposed:
+`Y[i] = Σ_{k = i off sel} X[k]·∏_{d ∈ sel} M_d[i_d, k_d]`. -/
+theorem C02_ttm_sparse [CommSemiring α] [DecidableEq α] (S : Sparse α) (hS : S.WF) (tr : Bool)
+    (Mf : Nat → Nat → Nat → α) (pairs : List (Nat × Dense.MatArg α)) (hne : pairs ≠ [])
+    (hnd : (pairs.map (·.1)).Nodup) (hlt : ∀ p ∈ pairs, p.1 < S.shape.length)
+    (hsz : ∀ p ∈ pairs, (if tr then p.2.m else p.2.n) = S.shape.getD p.1 0)
+    (hM : ∀ p ∈ pairs, ∀ a b, Mf p.1 a b = if tr then p.2.rows.get b a else p.2.rows.get a b) :
+    ∃ Y, S.ttmList pairs tr = .ok Y ∧ Y.WF ∧ Y.shape.length = S.shape.length ∧
+      (∀ d, d ∉ pairs.map (·.1) → Y.shape.getD d 0 = S.shape.getD d 0) ∧
+      (∀ p ∈ pairs, Y.shape.getD p.1 0 = if tr then p.2.n else p.2.m) ∧
+      ∀ i, InBounds Y.shape i → Y.get i = Spec.ttm S.den (pairs.map (·.1)) Mf i :=
+  ML.sparse_ttmList_spec S hS tr Mf pairs hne hnd hlt hsz hM
+
+/-- Cross-representation form: `sptensor.ttm(...)` as called (any mode designation, any flag, accepted
+or rejected) returns exactly what `tensor.ttm(...)` returns for the expanded tensor. -/
+theorem C02_ttm_sparse_eq_dense [CommSemiring α] [DecidableEq α] (S : Sparse α) (hS : S.WF)
+    (Ms : List (Dense.MatArg α)) (dims excl : Option (List Int)) (tr : Bool) :
+    S.ttm Ms dims excl tr = S.full.ttm Ms dims excl tr := ML.sparse_ttm_eq_full S hS Ms dims excl tr
+
 /-- The definition of a multi-mode product peels off one mode at a time (so the order in which the
 single-mode products are applied cannot matter). -/
 theorem C02_ttm_spec_peel [CommSemiring α] (X : Den α) (sel : List Nat) (n : Nat) (M : Nat → Nat → Nat → α)
@@ -147,6 +182,22 @@ theorem C02_sum_full [CommSemiring α] [DecidableEq α] (p0 : ML.Part α) (ps : 
     ∃ D, ML.Sumtensor.full (p0 :: ps) = .ok D ∧ D.shape = p0.shape ∧ D.WF ∧
       ∀ i, InBounds p0.shape i → D.get i = p0.get i + (ps.map fun p => p.get i).sum :=
   ML.sum_full_spec p0 ps hwf hsh hpos
+
+/-! ### tensor times tensor -/
+
+/-- Dense `ttt` (both operands matricized, matrix product, folded back): the outer product when no
+modes are listed, the contraction over the listed pairs of modes otherwise, a scalar when nothing is
+left. The entry at `a ++ b` (free coordinates of `X`, then of `Y`) is
+`Σ_{kx[remX] = a} Σ_{ky[remY] = b, ky[yd] = kx[xd]} X[kx]·Y[ky]`. -/
+theorem C02_ttt_dense [CommSemiring α] (X Y : Dense α) (hX : X.WF) (hY : Y.WF) (xd yd : List Nat)
+    (hxnd : xd.Nodup) (hxlt : ∀ d ∈ xd, d < X.shape.length)
+    (hynd : yd.Nodup) (hylt : ∀ d ∈ yd, d < Y.shape.length)
+    (hcom : gather X.shape xd = gather Y.shape yd) :
+    ∃ r, X.ttt Y xd yd = .ok r ∧ r.toRes.shape = Spec.tttShape X.shape Y.shape xd yd ∧
+      ∀ a b, InBounds (gather X.shape (complDims X.shape.length xd)) a →
+        InBounds (gather Y.shape (complDims Y.shape.length yd)) b →
+        r.toRes.get (a ++ b) = Spec.ttt X.den Y.den xd yd a b :=
+  ML.dense_ttt_spec X Y hX hY xd yd hxnd hxlt hynd hylt hcom
 
 /-! ### matricized tensor times Khatri-Rao product -/
 
@@ -195,6 +246,41 @@ theorem C02_mttkrp_sparse [CommSemiring α] [DecidableEq α] (S : Sparse α) (hS
       ∀ i r, i < S.shape.getD n 0 → r < R →
         V.get i r = Spec.mttkrp S.den (fun m x c => (U.getD m []).get x c) (fun _ => 1) n i r :=
   ML.sparse_mttkrp_list_spec S hS U n R hN2 hn hlen hrows hcols hpos
+
+/-- `tensor.mttkrps` for ANY split index `sp` with `sp + 1 < N` (two partial products with the
+right / left Khatri-Rao factor, then `mttv_mid` / `mttv_left` peeling one mode per iteration): the `N`
+returned matrices are the `N` matricized products `Σ_{k, k_n = i} X[k] ∏_{m ≠ n} U_m[k_m, r]`. -/
+theorem C02_mttkrps_dense_at [CommSemiring α] (T : Dense α) (U : List (Mat α)) (R : Nat) (H : ML.KPre T U R)
+    (sp : Nat) (hsp : sp + 1 < T.shape.length) :
+    ∃ V, T.mttkrpsAt U sp = .ok V ∧ V.length = T.shape.length ∧
+      ∀ n i r, n < T.shape.length → i < T.shape.getD n 0 → r < R →
+        (V.getD n []).get i r =
+          Spec.mttkrp T.den (fun m x c => (U.getD m []).get x c) (fun _ => 1) n i r :=
+  ML.dense_mttkrpsAt_spec T U R H sp hsp
+
+/-- The split index `min_split` chooses is always admissible (for positive extents, order ≥ 2). -/
+theorem C02_min_split_bound (s : List Nat) (hpos : ∀ e ∈ s, 0 < e) (hN : 2 ≤ s.length) :
+    minSplit s + 1 < s.length := ML.minSplit_bound s hpos hN
+
+/-- `tensor.mttkrps(U)` with a list of factor matrices, as the code runs it (split chosen by
+`min_split`). -/
+theorem C02_mttkrps_dense [CommSemiring α] (T : Dense α) (U : List (Mat α)) (R : Nat) (H : ML.KPre T U R)
+    (hN2 : 2 ≤ T.shape.length) :
+    ∃ V, T.mttkrps (.list U) = .ok V ∧ V.length = T.shape.length ∧
+      ∀ n i r, n < T.shape.length → i < T.shape.getD n 0 → r < R →
+        (V.getD n []).get i r =
+          Spec.mttkrp T.den (fun m x c => (U.getD m []).get x c) (fun _ => 1) n i r :=
+  ML.dense_mttkrps_list_spec T U R H hN2
+
+/-- `tensor.mttkrps(K)` with a Kruskal operand (after the fix): every column `r` of every result is
+multiplied by `λ_r` — non-unit, negative, zero or mixed weights alike. -/
+theorem C02_mttkrps_dense_kruskal [CommSemiring α] (T : Dense α) (K : Ktensor α) (R : Nat)
+    (H : ML.KPre T K.factors R) (hw : K.weights.length = R) (hN2 : 2 ≤ T.shape.length) :
+    ∃ V, T.mttkrps (.kruskal K) = .ok V ∧ V.length = T.shape.length ∧
+      ∀ n i r, n < T.shape.length → i < T.shape.getD n 0 → r < R →
+        (V.getD n []).get i r =
+          Spec.mttkrp T.den (fun m x c => (K.factors.getD m []).get x c) (fun r => K.weights.getD r 0) n i r :=
+  ML.dense_mttkrps_kruskal_spec T K R H hw hN2
 
 /-! ### inner product and norm -/
 
@@ -297,6 +383,47 @@ theorem C02_collapse_sparse [CommSemiring α] [DecidableEq α] (S : Sparse α) (
 theorem C02_collapse_sum_ok [CommSemiring α] [DecidableEq α] :
     ML.ZeroInsensitive (List.sum : List α → α) ∧ (List.sum ([] : List α) = 0) :=
   ⟨ML.zeroInsensitive_sum, rfl⟩
+
+/-! ### mask, sparse-core Tucker -/
+
+/-- `ktensor.mask(W)`: for a mask of the same order and no larger extents the result lists, in the order
+of the mask's non-zero subscripts, the entries `Σ_j λ_j ∏_k A_k[i_k, j]` of the Kruskal tensor. -/
+theorem C02_mask_kruskal [CommSemiring α] (K : Ktensor α) (wshape : List Nat) (wsubs : List (List Nat))
+    (hl : wshape.length = K.factors.length) (hle : ∀ p ∈ wshape.zip K.shape, p.1 ≤ p.2)
+    (hsub : ∀ i ∈ wsubs, i.length = K.factors.length) :
+    K.mask wshape wsubs = .ok (wsubs.map K.get) := ML.kruskal_mask_spec K wshape wsubs hl hle hsub
+
+/-- A mask of another order or with a larger extent is rejected. -/
+theorem C02_mask_kruskal_rejects [Add α] [Mul α] [Zero α] (K : Ktensor α) (wshape : List Nat) (wsubs : List (List Nat))
+    (h : wshape.length ≠ K.factors.length ∨ ∃ p ∈ wshape.zip K.shape, p.1 > p.2) :
+    K.mask wshape wsubs = .error .reject := ML.kruskal_mask_rejects K wshape wsubs h
+
+/-- Tucker `full` with a SPARSE core (sparse `ttm` kernel) returns exactly what `full` returns for the
+same Tucker tensor with the core expanded (for which `C02_tucker_full` gives the entries). -/
+theorem C02_tucker_full_sparse_core [CommSemiring α] [DecidableEq α] (T : TtensorS α) (hS : T.core.WF) :
+    T.full = (⟨T.core.full, T.factors⟩ : Ttensor α).full := ML.tuckerS_full_eq T hS
+
+/-- `ttensor.ttv` of a Tucker tensor with a SPARSE core (after mode designation): the selected
+factors are contracted with their vectors, the core goes through the sparse `ttv` kernel, so the new
+core may come back as a scalar, a densified tensor or a sparse tensor; the result — a scalar exactly
+when every mode is selected — denotes `Σ_{k ∈ fiber} ⟦T⟧[k]·∏_d v_d[k_d]` (`MLK.tsGet` is
+`Σ_j G[j] ∏ₙ Uₙ[iₙ, jₙ]` with `G` the sparse core). -/
+theorem C02_ttv_tucker_sparse_core [CommSemiring α] [DecidableEq α] (T : TtensorS α) (hS : T.core.WF)
+    (hlenT : T.factors.length = T.core.shape.length)
+    (hcols : ∀ d, d < T.factors.length → (T.factors.getD d []).ncols = T.core.shape.getD d 0)
+    (pairs : List (Nat × List α))
+    (hnd : (pairs.map (·.1)).Nodup) (hlt : ∀ p ∈ pairs, p.1 < T.factors.length)
+    (hlen : ∀ p ∈ pairs, p.2.length = (T.factors.getD p.1 []).length)
+    (w : Nat → Nat → α) (hw : ∀ p ∈ pairs, ∀ k, w p.1 k = p.2.getD k 0) :
+    ∃ r, T.ttvCore pairs = .ok r ∧
+      ((∃ v, r = .scalar v) ↔ complDims T.factors.length (pairs.map (·.1)) = []) ∧
+      ∀ i, InBounds (Spec.ttvShape (MLK.tsShape T) (pairs.map (·.1))) i →
+        MLK.tanyGet r i = Spec.ttv ⟨MLK.tsShape T, MLK.tsGet T⟩ (pairs.map (·.1)) w i :=
+  MLK.tuckerS_ttvCore_spec T hS hlenT hcols pairs hnd hlt hlen w hw
+
+/-- A Tucker tensor with a sparse core denotes what the one with the expanded core denotes. -/
+theorem C02_tucker_sparse_core_den [CommSemiring α] [DecidableEq α] (T : TtensorS α) (hS : T.core.WF) (i : List Nat) :
+    MLK.tsGet T i = (⟨T.core.full, T.factors⟩ : Ttensor α).get i := MLK.tsGet_eq_full T hS i
 
 /-! ### non-vacuity -/
 
